@@ -438,7 +438,9 @@ ASSUMPTIONS = [
 ]
 THEOREMS = ['C08_cancel_exact', 'C08_cancel_step', 'C08_frame_discipline', 'C08_cancelled_behaviour',
             'C08_finalize_only', 'C08_cancelled_result', 'C08_no_overwrite', 'C08_quiescent', 'C08_queued_deferred',
-            'C08_queued_idle', 'C08_queued_serial', 'C08_queued_last', 'C08_model_serial', 'C08_example']
+            'C08_queued_idle', 'C08_queued_serial', 'C08_queued_last', 'C08_model_serial', 'C08_global_scan',
+            'C08_global_serial_fifo', 'C08_model_serial_fifo', 'C08_items_inside_body', 'C08_busy_defers',
+            'C08_example', 'C08_example_queued', 'C08_example_model']
 
 
 def _steps(obs):
